@@ -559,43 +559,144 @@ def replay(K, pid, path, seed):
     return 0
 
 
+def judge_for(pid, obs_name):
+    if "trace" in obs_name:
+        return None                      # trace mismatches are DRIFT by design; not part of the selftest
+    return JUDGE_OF[pid]
+
+
 def selftest(K, ctx, meta):
     """corrupt recorded observations and require the judge to reject exactly those lines (DESIGN §6.4)"""
     import glob
     ok = True
+    tested = 0
     for obs in sorted(glob.glob(os.path.join(ctx.rundir, "*.obs.ndjson"))):
+        judge = judge_for(ctx.pid, os.path.basename(obs))
+        if judge is None:
+            continue
         lines = [x for x in open(obs, encoding="utf-8").read().split("\n") if x]
         if not lines:
             continue
+        lines = lines[:20000]
         rnd = random.Random(ctx.seed)
-        picks = sorted(rnd.sample(range(len(lines)), min(3, len(lines))))
+        order = list(range(len(lines)))
+        rnd.shuffle(order)
         changed = []
-        for i in picks:
+        for i in order:
+            if len(changed) >= 4:
+                break
             o = json.loads(lines[i])
-            if corrupt(o, rnd):
+            if corrupt(o, rnd, ctx.pid):
                 lines[i] = json.dumps(o, ensure_ascii=False)
                 changed.append(o["id"])
         bad_path = obs + ".corrupt"
         open(bad_path, "w", encoding="utf-8").write("\n".join(lines) + "\n")
         m = re.search(r"_(ascii|latex|han)\.obs\.ndjson$", obs)
         fmt = m.group(1) if m else "ascii"
-        judge = meta.get("judge_of", lambda p: JUDGE_OF[ctx.pid])(obs)
         before = len(ctx.violations)
-        bad = K.run_judge(ctx, judge, fmt, bad_path, "selftest_" + os.path.basename(obs).split(".")[0])
+        bad = K.run_judge(ctx, judge, fmt, bad_path, "selftest_" + os.path.basename(obs).split(".")[0], env_extra=getattr(ctx, "judge_env", None))
         got = sorted(i for i, _ in bad)
-        K.log(f"SELFTEST {os.path.basename(obs)}: corrupted {changed}, judge rejected {got}")
-        ok = ok and set(changed) <= set(got)
+        K.log(f"SELFTEST {os.path.basename(obs)}: corrupted {sorted(changed)}, judge rejected {got}")
+        ok = ok and len(changed) > 0 and set(changed) <= set(got) and len(got) <= len(changed) + (400 if ctx.pid == "C16" else 0)
+        tested += 1
         del ctx.violations[before:]
-    K.log("SELFTEST " + ("passed" if ok else "FAILED"))
-    return 0 if ok else 2
+    K.log("SELFTEST " + ("passed" if ok and tested else "FAILED"))
+    return 0 if ok and tested else 2
 
 
-def corrupt(o, rnd):
-    """flip one recorded field of an observation in a way the property must notice"""
+def corrupt(o, rnd, pid="", prop_env=None):
+    """flip one recorded field of an observation in a way the property must notice; False if this observation cannot be used"""
     ob = o["o"]
     op = o["c"].get("op")
-    if op == "mut" and "steps" in ob and len(ob["steps"]) > 1:
-        st = ob["steps"][rnd.randrange(1, len(ob["steps"]))]
-        st["res"] = "ok" if st["res"] != "ok" else "err"
-        return True
+    try:
+        if op == "mut" and len(ob.get("steps", [])) > 1:
+            st = ob["steps"][rnd.randrange(1, len(ob["steps"]))]
+            st["res"] = "ok" if st["res"] != "ok" else "err"
+            return True
+        if op == "rt_enum" and ob.get("r", {}).get("r") == "ok":
+            ob["r"] = {"r": "err", "msg": "corrupted"}
+            return True
+        if op == "rt_lex" and ob.get("r", {}).get("r") == "ok":
+            ob["r"] = {"r": "err", "msg": "corrupted"}
+            return True
+        if op in ("pipe", "pipe_v") and "e" in ob:
+            if "classify" in o["c"]:
+                if ob["e"].get("r") == "ok" and o["c"].get("has_term"):
+                    ob["e"]["v"]["kind"] = "task" if ob["e"]["v"]["kind"] != "task" else "term"
+                    return True
+                return False
+            if ("expect" in o["c"] or op == "pipe_v") and o["c"].get("only") != "lex" and ob["e"].get("r") == "ok":
+                ob["e"] = {"r": "err", "msg": "corrupted"}
+                return True
+            if o["c"].get("only") == "lex" and ob["f"].get("r") == "ok":
+                ob["f"] = {"r": "err", "msg": "corrupted"}
+                return True
+            return False
+        if op == "parse_any":
+            if pid == "C04":
+                ob["stamp"] = {"r": "panic", "msg": "corrupted"}
+                return True
+            if pid == "C05":
+                ob["lex_term"] = {"r": "panic", "msg": "corrupted"}
+                return True
+            if pid == "C12" and ob["truth"].get("r") == "ok" and len(ob["truth"]["v"]) > 0:
+                ob["truth"]["v"][0] = "1.5"
+                return True
+            return False
+        if op == "fold_any":
+            if pid == "C05":
+                ob["fold"] = {"r": "panic", "msg": "corrupted"}
+                return True
+            if pid == "C12" and ob["fold"].get("r") == "ok":
+                ob["fmtable"] = {"ok": False, "bad": ["corrupted"]}
+                return True
+            return False
+        if op == "multi" and ob.get("multi"):
+            k = rnd.randrange(len(ob["multi"]))
+            ob["multi"][k] = {"r": "err", "msg": "corrupted"} if ob["multi"][k]["r"] == "ok" else ob["alone"][(k + 1) % len(ob["alone"])] if ob["alone"][(k + 1) % len(ob["alone"])]["r"] == "ok" else {"r": "ok", "v": {"kind": "term", "v": {"k": "Word", "n": "corrupted"}}}
+            return True
+        if op == "eqhash" and ob.get("reps"):
+            r = ob["reps"][0]
+            if pid == "C06":
+                r["ab"] = not r["ab"]
+                return True
+            if r["ab"]:
+                r["contains"] = False
+                return True
+            return False
+        if op == "eq3":
+            if pid == "C06":
+                ob["ab"] = not ob["ab"]
+                return True
+            return False
+        if op == "eq_parse_twice" and ob.get("both_ok"):
+            if pid == "C06":
+                ob["eq"] = False
+            else:
+                ob["h_eq"] = False
+            return True
+        if op == "numbers":
+            ob["budget_try"] = {"r": "err", "msg": "corrupted"} if ob["budget_try"]["r"] == "ok" else {"r": "ok", "bits": ob["in_bits"][:3]}
+            return True
+        if op == "accessors" and "pred" in ob:
+            ob["pred"]["is_atom"] = not ob["pred"]["is_atom"]
+            return True
+        if op == "lex_accessors":
+            ob["pred"]["category"] = "Statement" if ob["pred"]["category"] != "Statement" else "Atom"
+            return True
+        if op == "image_iter" and o["c"]["i"] <= o["c"]["n"] and ob.get("outs"):
+            ob["outs"][0] = {"k": "None"} if ob["outs"][0].get("k") != "None" else {"k": "Placeholder"}
+            return True
+        if op == "lifecycle" and len(ob.get("steps", [])) > 1:
+            st = ob["steps"][rnd.randrange(1, len(ob["steps"]))]
+            st["res"] = {"r": "corrupted"}
+            return True
+        if op == "typst" and ob.get("texts") and ob["texts"][0].get("r") == "ok":
+            ob["texts"][0]["s"] = " " + ob["texts"][0]["s"]
+            return True
+        if op == "ascii_out" and "kind" in ob:
+            ob["kind"] = "task" if ob["kind"] != "task" else "term"
+            return True
+    except (KeyError, IndexError, TypeError):
+        return False
     return False
